@@ -36,7 +36,8 @@ PROBES = ['served_from_partial_cache', 'tensor_after_component',
           'cross_restart_read', 'grouped_layout', 'per_proc_layout',
           'enum_permuted', 'deep_level_hierarchy', 'io_fault_fired',
           'io_fault_raise_accepted', 'read_after_failed_read',
-          'io_fault:create', 'io_fault:open_r', 'io_fault:open_w']
+          'io_fault:create', 'io_fault:open_r', 'io_fault:open_w',
+          'second_simulation_with_the_same_name']
 COMPONENTS = {
     'aurel.reading.read_data/read_ET_data/read_aurel_data/save_data/'
     'read_ET_variables/join_chunks/iterations/get_content': 'real',
@@ -113,6 +114,24 @@ def generate(rng, tier):
         ops = [{'op': 'read', 'it': [0], 'vars': [], 'rl': 0, 'restart': -1,
                 'split': True}]
     cfg['io_faults'] = io_faults
+    # a second simulation with the SAME name under another root directory,
+    # read in the same session (same layout and values, other times)
+    gt = rng.child('twin')
+    if gt.chance(0.15):
+        out = []
+        for o in ops:
+            if gt.chance(0.5):
+                t = copy.deepcopy(o)
+                t.pop('fault', None)
+                t['twin'] = True
+                out.append(t)
+            out.append(o)
+            if gt.chance(0.25):
+                t = copy.deepcopy(o)
+                t.pop('fault', None)
+                t['twin'] = True
+                out.append(t)
+        ops = out
     return {'config': cfg, 'enum': enum, 'ops': ops}
 
 
@@ -123,6 +142,10 @@ def fixup(run):
 def simplify(run):
     from . import C11
     for c in C11.simplify(run):
+        yield c
+    if any(o.get('twin') for o in run['ops']):
+        c = copy.deepcopy(run)
+        c['ops'] = [o for o in c['ops'] if not o.get('twin')]
         yield c
     for i, o in enumerate(run['ops']):
         if o.get('fault'):
@@ -158,6 +181,15 @@ def _execute(run, plan):
     sim = etsim.ETSim(cfg, h5py)
     sim.run_all()
     param = etsim.param_of(cfg)
+    sim2 = param2 = None
+    if any(o.get('twin') for o in run['ops']):
+        cfg2 = copy.deepcopy(cfg)
+        cfg2['simpath'] = 'OTHER_ROOT/' + cfg['simpath']
+        cfg2['t0'] = cfg.get('t0', 0.0) + 1000.0
+        sim2 = etsim.ETSim(cfg2, h5py)
+        sim2.run_all()
+        param2 = etsim.param_of(cfg2)
+        probe('second_simulation_with_the_same_name')
     nres = len(cfg['restarts'])
     vis = list(range(nres))
     if any(rs['per_proc'] for rs in cfg['restarts']):
@@ -184,6 +216,29 @@ def _execute(run, plan):
                           split_per_it=op['split'], verbose=False,
                           skip_last=False)
             before = digest(kwargs)
+            if op.get('twin'):
+                # the other simulation of the same name: its own truth
+                exp2 = iosim.expected_read(sim2, cfg, vis, op)
+                try:
+                    got2 = aurel.read_data(param2, **kwargs)
+                except Exception as e:  # noqa: BLE001
+                    tr.event('read_twin', op=op, outcome=type(e).__name__)
+                    if not (exp2['absent'] and (not exp2['chosen'] or
+                                                type(e).__name__
+                                                == 'ValueError')):
+                        viol.append({
+                            'sig': f'read:twin:raised:{type(e).__name__}',
+                            'op': opi,
+                            'msg': f'op#{opi} read_data on the second '
+                                   f'simulation of the same name raised '
+                                   f'{type(e).__name__}: {e}'})
+                    continue
+                tr.event('read_twin', op=op, result=digest(got2))
+                compared += iosim.check_returned(
+                    sim2, cfg, op, opi, got2, exp2, viol, tag=':twin')
+                audited += iosim.audit_cache(sim2, cfg, h5py, _glob, viol,
+                                             opi)
+                continue
             exp = iosim.expected_read(sim, cfg, vis, op)
             plan.arm(op.get('fault'))
             fired = None
